@@ -318,7 +318,46 @@ def sweep_c15():
                 miss = [w for w in want if w not in got]
                 bad.append({'file': fid, 'level': level, 'expected_symbols': len(want), 'visited': len(got), 'first_missing': miss[:3],
                             'what': 'visited sequence differs from the source-order pre-order'})
+        # walk_types / walk_methods / walk_args
+        wt = [w[1] for w in ref_symbols(a, 'all') if w[0] == 'type']
+        gt = [tuple(x[:2]) for x in a.get('types_walk', [])]
+        n += len(wt)
+        if gt != wt:
+            bad.append({'file': fid, 'walker': 'walk_types', 'expected': len(wt), 'visited': len(gt), 'first_missing': [w for w in wt if w not in gt][:3], 'what': 'walk_types differs from the source-order type sequence'})
+        wm = [m['name'] for m in a['members'] if m['tag'] == 'method']
+        if a.get('walkers', {}).get('methods') != wm:
+            bad.append({'file': fid, 'walker': 'walk_methods', 'what': 'walk_methods yields %s, expected %s' % (a.get('walkers', {}).get('methods'), wm)})
+        wa = [[m['name'], g['sym']] for m in a['members'] if m['tag'] == 'method' for g in m['args']]
+        if a.get('walkers', {}).get('args') != wa:
+            bad.append({'file': fid, 'walker': 'walk_args', 'what': 'walk_args differs from the (method, argument) pairs in source order'})
     return n, bad
+
+
+def type_order_k(t, out):
+    if t['kind'] == 'array':
+        for g in t['generic']:
+            type_order_k(g, out)
+        out.append(('type', tuple(t['sym'][:6]), t['kind']))
+    else:
+        out.append(('type', tuple(t['sym'][:6]), t['kind']))
+        for g in t['generic']:
+            type_order_k(g, out)
+
+
+def ref_symbols_k(a):
+    """reference order at level All with full ranges (offsets + line/col) and, for types, the kind"""
+    out = [('package', tuple(a['package_sym'][:6]), None)] + [('import', tuple(i['sym'][:6]), None) for i in a['imports']]
+    out.append((a['item']['tag'], tuple(a['item']['sym'][:6]), None))
+    for m in a['members']:
+        out.append((m['tag'], tuple(m['sym'][:6]), None))
+        if m['tag'] == 'method':
+            type_order_k(m['ret'], out)
+            for g in m['args']:
+                out.append(('arg', tuple(g['sym'][:6]), None))
+                type_order_k(g['type'], out)
+        elif m['tag'] in ('const', 'field'):
+            type_order_k(m['type'], out)
+    return out
 
 
 def sweep_c16():
@@ -327,6 +366,22 @@ def sweep_c16():
     r = replay.project(docs)
     for fid, fr in sorted(r['files'].items()):
         a = fr['valid']['ast']
+        refk = ref_symbols_k(a)
+        # exactness on array element positions and a few others: the FIRST symbol in reference order containing the position
+        probes2 = [(tag, rg, k) for (tag, rg, k) in refk if tag == 'type'][:14] + [x for x in refk if x[0] != 'type'][:6]
+        for (tag, rg, k) in probes2:
+            for (line, col) in ((rg[2], rg[3]), (rg[4], rg[5])):
+                first = next((x for x in refk if (x[1][2], x[1][3]) <= (line, col) <= (x[1][4], x[1][5])), None)
+                res = replay.lookup(docs, fid, line, col)
+                n += 1
+                got = res.get('all')
+                if first is None:
+                    continue
+                if got is None:
+                    bad.append({'file': fid, 'position': [line, col], 'what': 'pointing at a %s name finds nothing' % first[0]})
+                elif got['tag'] != first[0] or tuple(got['range'][:2]) != first[1][:2] or (first[0] == 'type' and got.get('type_kind') != first[2]):
+                    bad.append({'file': fid, 'position': [line, col], 'what': 'lookup returns %s %s %s, the first symbol containing the position is %s %s %s' % (
+                        got['tag'], got['range'][:2], got.get('type_kind'), first[0], list(first[1][:2]), first[2])})
         want = ref_symbols(a, 'all')
         syms = a['symbols_all']
         # name ranges as (line, col) from the native symbols where visited; fall back to package range for the package
@@ -653,3 +708,143 @@ def sweep_doc_attachment():
                     expect('enum_element', ms['A']['doc'], 'elem doc', fid)
                     expect('enum_element without doc', ms['B']['doc'], None, fid)
     return n, bad
+
+
+def sweep_c06():
+    """import lists and forward-declaration lists over a small name pool, reference written from the statement."""
+    import itertools
+    support = {'foo.aidl': 'package p.q;\nparcelable Foo { int a; }\n', 'bar.aidl': 'package p.q;\nparcelable Bar { int a; }\n'}
+    imp_pool = ['p.q.Foo', 'p.q.Bar', 'x.y.Nope', 'android.os.IBinder', 'other.Foo']
+    uses_pool = [[], ['Foo'], ['Foo', 'Bar'], ['IBinder'], ['List<Map<String,Foo>>']]
+    files, metas = {}, {}
+    k = 0
+    for L in (1, 2, 3):
+        for imps in itertools.product(imp_pool, repeat=L):
+            if L == 3 and len(set(imps)) == 3:
+                continue
+            for uses in uses_pool:
+                k += 1
+                fid = 'i%04d.aidl' % k
+                body = ''.join('  void m%d(in %s a);\n' % (j, u) for j, u in enumerate(uses))
+                files[fid] = 'package z;\n' + ''.join('import %s;\n' % i for i in imps) + 'interface I {\n' + body + '}\n'
+                metas[fid] = ('imports', imps, uses)
+    dec_pool = ['Fwd', 'Foo', 'a.b.Fwd', 'Other']
+    for L in (1, 2):
+        for decs in itertools.product(dec_pool, repeat=L):
+            for withimp in (False, True):
+                for uses in ([], ['Fwd'], ['Foo'], ['Fwd', 'Other']):
+                    k += 1
+                    fid = 'd%04d.aidl' % k
+                    body = ''.join('  void m%d(in %s a);\n' % (j, u) for j, u in enumerate(uses))
+                    files[fid] = 'package z;\n' + ('import p.q.Foo;\n' if withimp else '') + ''.join('parcelable %s;\n' % d for d in decs) + 'interface I {\n' + body + '}\n'
+                    metas[fid] = ('declared', decs, uses, withimp)
+    files.update(support)
+    r = replay.project(files)
+    if 'files' not in r:
+        return len(metas), [{'what': 'validation did not return normally: %s' % str(r)[:200]}]
+    defined = {'p.q.Foo', 'p.q.Bar'}
+    builtin_q = {'android.os.IBinder', 'java.os.FileDescriptor', 'android.os.ParcelFileDescriptor', 'android.os.ParcelableHolder'}
+    bad = []
+    for fid, meta in metas.items():
+        fr = r['files'][fid]['valid']
+        a = fr['ast']
+        if a is None:
+            bad.append({'file': fid, 'what': 'did not parse'}); continue
+        # keys some type resolved to, read off the validated tree (at any depth)
+        res = set()
+
+        def walk(t):
+            kk = t['kind']
+            if kk.startswith('resolved:'):
+                res.add(kk.split(':')[1])
+            elif kk.startswith('android:'):
+                res.add({'IBinder': 'android.os.IBinder', 'FileDescriptor': 'java.os.FileDescriptor', 'ParcelFileDescriptor': 'android.os.ParcelFileDescriptor', 'ParcelableHolder': 'android.os.ParcelableHolder'}[kk.split(':')[1]])
+            elif kk == 'string':
+                res.add('java.lang.String')
+            for g in t['generic']:
+                walk(g)
+        for t in all_types(a['members']):
+            walk(t)
+        if meta[0] == 'imports':
+            imps = meta[1]
+            want = []
+            for j, q in enumerate(imps):
+                sym = tuple(a['imports'][j]['sym'][:2])
+                if q in imps[:j]:
+                    first = imps.index(q)
+                    want.append(('Error', sym, tuple(a['imports'][first]['sym'][:2])))
+                elif q not in defined and q not in builtin_q:
+                    want.append(('Warning:Unresolved', sym, None))
+                elif q not in res:
+                    want.append(('Warning:Unused', sym, None))
+            got = []
+            for d in fr['diags']:
+                if 'import' in d['message'] and 'conflicts' not in d['message']:
+                    cat = 'Error' if d['kind'] == 'Error' else 'Warning:' + d['message'].split()[0]
+                    got.append((cat, tuple(d['range'][:2]), tuple(d['related'][0][:2]) if d['related'] else None))
+            if sorted(got, key=str) != sorted(want, key=str):
+                bad.append({'file': fid, 'imports': imps, 'uses': meta[2], 'got': got, 'want': want, 'what': 'import diagnostics differ from the statement'})
+        else:
+            decs, uses, withimp = meta[1], meta[2], meta[3]
+            impnames = {'Foo'} if withimp else set()
+            want = []
+            kept = []
+            for j, dq in enumerate(decs):
+                dn = dq.split('.')[-1]
+                node = a['declared'][j]
+                sym, full = tuple(node['sym'][:2]), tuple(node['full'][:2])
+                if dn in impnames:
+                    want.append(('conflict', sym)); continue
+                if dq in [x for x, _ in kept]:
+                    want.append(('repeated', sym)); continue
+                kept.append((dq, j))
+                want.append(('usage', full) if dq in res else ('unused', sym))
+            got = []
+            for d in fr['diags']:
+                mm = d['message']
+                cat = 'conflict' if 'conflicts' in mm else 'repeated' if mm.startswith('Multiple') else 'unused' if mm.startswith('Unused declared') else 'usage' if mm.startswith('Usage of declared') else None
+                if cat:
+                    got.append((cat, tuple(d['range'][:2])))
+            if sorted(got) != sorted(want):
+                bad.append({'file': fid, 'declared': decs, 'uses': uses, 'import': withimp, 'got': got, 'want': want, 'what': 'forward-declaration diagnostics differ from the statement'})
+    return len(metas), bad
+
+
+def sweep_error_tokens():
+    """syntax errors whose offending token is long / multi-byte / at the very end: validation must return normally, with one result
+    per id, at least one Error, and a diagnostic range that covers exactly the offending token."""
+    long_ascii = '"' + 'a' * 70 + '"'
+    long_e = '"' + '\u00e9' * 40 + '"'            # 2-byte characters: every odd byte offset is inside a character
+    long_mix = '"x' + '\u20ac' * 30 + '"'          # 3-byte characters shifted by one
+    long_emoji = '"' + '\U0001F600' * 20 + '"'
+    toks = [long_ascii, long_e, long_mix, long_emoji, '12345678901234567890123456789012345678901234567890', '1.' + '0' * 60 + 'f', '@' + 'A' * 60]
+    files, metas = {}, {}
+    k = 0
+    for t in toks:
+        for tmpl in ('package p; %s', 'package p; interface I { @S(%s) void f(); }', 'package p; interface I { void f() %s; }', 'package p; parcelable P { int a %s; }',
+                     'package p; enum E { A, %s, B }', 'package p; interface I {} %s'):
+            k += 1
+            fid = 't%03d.aidl' % k
+            files[fid] = tmpl % t
+            metas[fid] = (tmpl, t)
+    r = replay.project(files)
+    if 'files' not in r:
+        return len(files), [{'what': 'adding / validating does not return normally: %s' % str(r)[:160], 'panic': True}]
+    bad = []
+    if sorted(r.get('keys', [])) != sorted(files):
+        bad.append({'what': 'result keys %d != ids %d' % (len(r.get('keys', [])), len(files))})
+    for fid, (tmpl, t) in metas.items():
+        fr = r['files'][fid]['valid']
+        errs = [d for d in fr['diags'] if d['kind'] == 'Error']
+        if fr['id'] != fid:
+            bad.append({'file': fid, 'what': 'result tagged %s' % fr['id']})
+        if not errs:
+            bad.append({'file': fid, 'text': files[fid][:60], 'what': 'malformed document without any Error'})
+            continue
+        start = len((tmpl.split('%s')[0]).encode('utf-8'))
+        end = start + len(t.encode('utf-8'))
+        syn = [d for d in r['files'][fid]['parse']['diags'] if 'Unrecognized token' in d['message'] or 'Extra token' in d['message']]
+        if syn and tuple(syn[0]['range'][:2]) != (start, end) and t in syn[0]['message']:
+            # the first syntax error is at the injected token in all templates
+            bad.append({'file': fid, 'text': files[fid][:50], 'what': 'syntax diagnostic range %s, offending token at %s' % (syn[0]['range'][:2], [start, end])})
+    return len(files), bad
